@@ -86,29 +86,73 @@ End ListLemmas.
 Definition basic_op (o : op) : bool :=
   match o with ORead _ | OPeek _ | OPipe | OExhaust => true | _ => false end.
 
+(* ================================================================== the source contract, relativised *)
+(* [good_source] (ProofsDefs.v) quantifies over all source states.  A parent reader is a
+   conforming source for its delimited child only in states satisfying its representation
+   invariant, so the contract is relativised to a predicate [P] on source states that the read
+   function preserves. *)
+Definition good_source_on {T : Type} (P : T -> Prop) (crd : T -> nat -> bytes * T)
+           (cabs : T -> bytes) : Prop :=
+  forall s n, P s -> 0 < n ->
+    exists k, k <= n /\
+      fst (crd s n) = firstn k (cabs s) /\
+      cabs (snd (crd s n)) = skipn k (cabs s) /\
+      (cabs s <> [] -> 0 < k) /\
+      P (snd (crd s n)).
+
+Lemma good_source_total : forall S rd sabs,
+  good_source S rd sabs -> good_source_on (fun _ : S => True) rd sabs.
+Proof.
+  intros S rd sabs H s n _ Hn. destruct (H s n Hn) as (k & H1 & H2 & H3 & H4).
+  exists k. auto.
+Qed.
+
+(* what the invariant says about the source side of a reader state: the source state
+   satisfies [P]; and, when [NT] holds, the byte budget _max_bytes_remaining covers everything
+   the source will still deliver (so that [tail st = sabs (src st)]: no truncation).  [NT] is
+   False for the top-level reader (whose budget is the declared stream length) and True for
+   delimited children (whose budget is the parent's _normalize_size(None)). *)
+Definition srcok (S : Type) (sabs : S -> bytes) (P : S -> Prop) (NT : Prop) (st : state S) : Prop :=
+  P (src st) /\ (NT -> length (sabs (src st)) <= rem st).
+
+(* the representation invariant of a reader over such a source *)
+Definition InvP (S : Type) (sabs : S -> bytes) (P : S -> Prop) (NT : Prop) (st : state S) : Prop :=
+  ProofsDefs.Inv S st /\ srcok S sabs P NT st.
+
+Lemma InvP_total : forall S sabs (st : state S),
+  InvP S sabs (fun _ => True) False st <-> ProofsDefs.Inv S st.
+Proof.
+  intros S sabs st. unfold InvP, srcok. split; [tauto|]. intro H. split; [exact H|].
+  split; [exact I | intros []].
+Qed.
+
 (* ================================================================== any conforming source *)
 Section SyncProofs.
 Variable S : Type.
 Variable rd : S -> nat -> bytes * S.
 Variable sabs : S -> bytes.
 Variable cs : nat.
-Hypothesis Hsrc : good_source S rd sabs.
+Variable P : S -> Prop.
+Variable NT : Prop.
+Hypothesis Hsrc : good_source_on P rd sabs.
 Hypothesis cs_pos : 0 < cs.
 Notation tail := (tail S sabs).
 Notation abs := (abs S sabs).
-Notation Inv := (Inv S).
+Notation srcok := (srcok S sabs P NT).
+Notation Inv := (InvP S sabs P NT).
 
 (* the source contract, phrased on the length of the returned chunk *)
-Lemma rd_spec : forall s n chunk s', 0 < n -> rd s n = (chunk, s') ->
+Lemma rd_spec : forall s n chunk s', P s -> 0 < n -> rd s n = (chunk, s') ->
   length chunk <= n /\
   chunk = firstn (length chunk) (sabs s) /\
   sabs s' = skipn (length chunk) (sabs s) /\
-  (length chunk = 0 -> sabs s = []).
+  (length chunk = 0 -> sabs s = []) /\
+  P s'.
 Proof using Hsrc.
   clear cs_pos.
-  intros s n chunk s' Hpos Erd.
-  destruct (Hsrc s n Hpos) as (k & Hk & Hout & Habs & Hne).
-  rewrite Erd in Hout, Habs. cbn [fst snd] in Hout, Habs.
+  intros s n chunk s' HP Hpos Erd.
+  destruct (Hsrc s n HP Hpos) as (k & Hk & Hout & Habs & Hne & HP').
+  rewrite Erd in Hout, Habs, HP'. cbn [fst snd] in Hout, Habs, HP'.
   subst chunk. rewrite firstn_length.
   destruct (Nat.le_ge_cases k (length (sabs s))) as [Hkl|Hkl].
   - rewrite Nat.min_l by lia. repeat split; auto.
@@ -119,17 +163,19 @@ Proof using Hsrc.
     + rewrite !firstn_all2 by lia. reflexivity.
     + rewrite Habs. rewrite !skipn_all2 by lia. reflexivity.
     + intros Hl0. destruct (sabs s); [reflexivity|discriminate].
+    + exact HP'.
 Qed.
 
 (* ------------------------------------------------------------------ 1. _perform_read *)
 Lemma pr_loop_spec : forall fuel size cl result r s res r' s',
   pr_loop S rd fuel size cl result r s = (res, r', s') ->
-  size - cl <= r -> size - cl <= fuel ->
+  P s -> size - cl <= r -> size - cl <= fuel ->
   res = result ++ firstn (size - cl) (sabs s) /\
-  firstn r' (sabs s') = skipn (size - cl) (firstn r (sabs s)).
+  firstn r' (sabs s') = skipn (size - cl) (firstn r (sabs s)) /\
+  P s' /\ (length (sabs s) <= r -> length (sabs s') <= r').
 Proof using Hsrc.
   clear cs_pos.
-  induction fuel as [|f IH]; intros size cl result r s res r' s' Hloop Hr Hf.
+  induction fuel as [|f IH]; intros size cl result r s res r' s' Hloop HP Hr Hf.
   - cbn [pr_loop] in Hloop. inversion Hloop; subst res r' s'.
     replace (size - cl) with 0 by lia. simpl. rewrite app_nil_r. auto.
   - cbn [pr_loop] in Hloop. remember (size - cl) as m eqn:Heqm.
@@ -137,26 +183,30 @@ Proof using Hsrc.
     + inversion Hloop; subst res r' s'. rewrite Hm. simpl. rewrite app_nil_r. auto.
     + destruct (rd s m) as [chunk s1] eqn:Erd.
       assert (Hmpos : 0 < m) by lia.
-      destruct (rd_spec s m chunk s1 Hmpos Erd) as (Hle & Hch & Hab & Hz).
+      destruct (rd_spec s m chunk s1 HP Hmpos Erd) as (Hle & Hch & Hab & Hz & HP1).
       destruct (Nat.eqb_spec (length chunk) 0) as [Hc|Hc].
-      * inversion Hloop; subst res r' s'. rewrite (Hz Hc).
-        rewrite !firstn_nil, skipn_nil, app_nil_r. simpl. auto.
-      * apply IH in Hloop; try lia. destruct Hloop as [Hres Htl]. split.
+      * inversion Hloop; subst res r' s'. rewrite Hab, (Hz Hc).
+        rewrite !firstn_nil, !skipn_nil, app_nil_r. simpl. auto.
+      * apply IH in Hloop; try lia; [|exact HP1].
+        destruct Hloop as (Hres & Htl & HP' & Hnt). split; [|split; [|split]].
         -- rewrite Hres, Hab, <- app_assoc. f_equal.
            rewrite Hch at 1. apply firstn_split_at. lia.
         -- rewrite Htl, Hab. rewrite <- skipn_firstn_comm. rewrite skipn_skipn'.
            f_equal. lia.
+        -- exact HP'.
+        -- intro Hlen. apply Hnt. rewrite Hab, skipn_length. lia.
 Qed.
 
 Lemma tail_length : forall st, length (tail st) <= rem st.
 Proof using. clear cs_pos. intros st. unfold ProofsDefs.tail. rewrite firstn_length. lia. Qed.
 
-Lemma perform_read_spec : forall st n out st', perform_read S rd st n = (out, st') ->
+Lemma perform_read_spec : forall st n out st', srcok st ->
+  perform_read S rd st n = (out, st') ->
   out = firstn n (tail st) /\ tail st' = skipn n (tail st) /\
-  buf st' = buf st /\ blen st' = blen st /\ bpos st' = bpos st.
+  buf st' = buf st /\ blen st' = blen st /\ bpos st' = bpos st /\ srcok st'.
 Proof using Hsrc.
   clear cs_pos.
-  intros st n out st' H. unfold perform_read in H.
+  intros st n out st' Hok H. pose proof Hok as [HP Hnt]. unfold perform_read in H.
   pose proof (tail_length st) as Hlen.
   rewrite <- (firstn_min_r n (rem st) (tail st) Hlen).
   rewrite <- (skipn_min_r n (rem st) (tail st) Hlen).
@@ -164,33 +214,45 @@ Proof using Hsrc.
   assert (Hm : m <= rem st) by lia.
   clear Heqm Hlen.
   destruct (Nat.eqb_spec m 0) as [Hm0|Hm0].
-  - inversion H; subst out st'. rewrite Hm0. simpl. auto.
+  - inversion H; subst out st'. rewrite Hm0. simpl. auto 6.
   - destruct (rd (src st) m) as [chunk s1] eqn:Erd.
     assert (Hmpos : 0 < m) by lia.
-    destruct (rd_spec (src st) m chunk s1 Hmpos Erd) as (Hle & Hch & Hab & Hz).
-    unfold ProofsDefs.tail.
+    destruct (rd_spec (src st) m chunk s1 HP Hmpos Erd) as (Hle & Hch & Hab & Hz & HP1).
+    unfold ProofsDefs.tail, ProofsSync.srcok.
     destruct (Nat.eqb_spec (length chunk) m) as [Hcm|Hcm].
     + inversion H; subst out st'. cbn [rem src buf blen bpos].
       repeat split; auto.
       * rewrite firstn_firstn, Nat.min_l by lia. rewrite <- Hcm. exact Hch.
       * rewrite Hab, <- skipn_firstn_comm, Hcm. reflexivity.
+      * intro HN. specialize (Hnt HN). rewrite Hab, skipn_length. lia.
     + destruct (Nat.eqb_spec (length chunk) 0) as [Hc0|Hc0].
       * inversion H; subst out st'. cbn [rem src buf blen bpos].
-        rewrite (Hz Hc0). rewrite !firstn_nil, skipn_nil. simpl. auto.
+        rewrite Hab, (Hz Hc0). rewrite !firstn_nil, !skipn_nil. simpl. auto 7.
       * destruct (pr_loop S rd m m (length chunk) chunk (rem st - length chunk) s1)
           as [[res r2] s2] eqn:Eloop.
         inversion H; subst out st'. cbn [rem src buf blen bpos].
-        apply pr_loop_spec in Eloop; try lia.
-        destruct Eloop as [Hres Htl]. repeat split; auto.
+        apply pr_loop_spec in Eloop; try lia; [|exact HP1].
+        destruct Eloop as (Hres & Htl & HP2 & Hnt2). repeat split; auto.
         -- rewrite firstn_firstn, Nat.min_l by lia.
            rewrite Hres, Hab. rewrite Hch at 1. apply firstn_split_at. lia.
         -- rewrite Htl, Hab. rewrite <- skipn_firstn_comm. rewrite skipn_skipn'.
            f_equal. lia.
+        -- intro HN. specialize (Hnt HN). apply Hnt2. rewrite Hab, skipn_length. lia.
 Qed.
 
 (* ------------------------------------------------------------------ small facts *)
+(* [srcok] only looks at the budget and the source *)
+Lemma srcok_frame : forall st st', rem st' = rem st -> src st' = src st -> srcok st -> srcok st'.
+Proof using. clear cs_pos. intros st st' Hr Hs. unfold ProofsSync.srcok. rewrite Hr, Hs. auto. Qed.
+
+(* with [NT] the budget does not truncate *)
+Lemma tail_notrunc : forall st, NT -> srcok st -> tail st = sabs (src st).
+Proof using.
+  clear cs_pos. intros st HN [_ Hnt]. unfold ProofsDefs.tail. apply firstn_all2. auto.
+Qed.
+
 Lemma buffered_length : forall st, Inv st -> length (skipn (bpos st) (buf st)) = avail S st.
-Proof using. clear cs_pos. intros st [Hl Hp]. rewrite skipn_length. unfold avail. lia. Qed.
+Proof using. clear cs_pos. intros st [[Hl Hp] _]. rewrite skipn_length. unfold avail. lia. Qed.
 
 Lemma abs_length : forall st, Inv st ->
   length (abs st) = avail S st + length (tail st).
@@ -211,30 +273,36 @@ Lemma fill_buffer_spec : forall st, Inv st -> let st' := fill_buffer S rd cs st 
   Inv st' /\ abs st' = abs st /\ (cs <= avail S st' \/ tail st' = []).
 Proof using Hsrc.
   clear cs_pos.
-  intros st HI. cbv zeta. pose proof HI as [Hl Hp]. unfold fill_buffer.
+  intros st HI. cbv zeta. pose proof HI as [[Hl Hp] Hok]. unfold fill_buffer.
   destruct (Nat.ltb_spec (avail S st) cs) as [Hlt|Hge].
   2:{ split; [exact HI|]. split; [reflexivity|]. left. exact Hge. }
   destruct (perform_read S rd st (cs - avail S st)) as [c st1] eqn:Epr.
-  apply perform_read_spec in Epr. destruct Epr as (Hc & Ht & Hb & Hbl & Hbp).
+  apply perform_read_spec in Epr; [|exact Hok].
+  destruct Epr as (Hc & Ht & Hb & Hbl & Hbp & Hok1).
   assert (Hcl : length c = Nat.min (cs - avail S st) (length (tail st)))
     by (rewrite Hc; apply firstn_length).
   assert (Hend : cs - avail S st <= length (tail st) \/ tail st1 = []).
   { destruct (Nat.le_ge_cases (cs - avail S st) (length (tail st))) as [H|H];
       [left; exact H | right; rewrite Ht; apply skipn_all2; exact H]. }
   destruct (Nat.eqb_spec (bpos st) 0) as [Hz|Hnz].
-  - unfold ProofsDefs.Inv, ProofsDefs.abs, avail in *.
+  - unfold InvP, ProofsDefs.Inv, ProofsDefs.abs, avail in *.
     change (tail (mk (buf st1 ++ c) (length (buf st1 ++ c)) (bpos st1) (rem st1) (src st1)))
       with (tail st1).
+    change (srcok (mk (buf st1 ++ c) (length (buf st1 ++ c)) (bpos st1) (rem st1) (src st1)))
+      with (srcok st1).
     cbn [buf blen bpos] in *.
-    rewrite Hb, Hbp, Hz in *. rewrite app_length. split; [split; lia|]. split.
+    rewrite Hb, Hbp, Hz in *. rewrite app_length. split; [split; [split; lia | exact Hok1]|]. split.
     + simpl. rewrite <- app_assoc. f_equal. rewrite Ht, Hc. apply firstn_skipn.
     + destruct Hend as [H|H]; [left; lia | right; exact H].
-  - unfold ProofsDefs.Inv, ProofsDefs.abs, avail in *.
+  - unfold InvP, ProofsDefs.Inv, ProofsDefs.abs, avail in *.
     change (tail (mk (skipn (bpos st) (buf st) ++ c) (length (skipn (bpos st) (buf st) ++ c))
                      0 (rem st1) (src st1)))
       with (tail st1).
+    change (srcok (mk (skipn (bpos st) (buf st) ++ c) (length (skipn (bpos st) (buf st) ++ c))
+                     0 (rem st1) (src st1)))
+      with (srcok st1).
     cbn [buf blen bpos] in *.
-    rewrite app_length, skipn_length. split; [split; lia|]. split.
+    rewrite app_length, skipn_length. split; [split; [split; lia | exact Hok1]|]. split.
     + simpl. rewrite <- app_assoc. f_equal. rewrite Ht, Hc. apply firstn_skipn.
     + destruct Hend as [H|H]; [left; lia | right; exact H].
 Qed.
@@ -277,7 +345,7 @@ Lemma read__spec : forall st n out st', Inv st -> read_ S rd cs true st n = (out
   out = firstn n (abs st) /\ abs st' = skipn n (abs st) /\ Inv st'.
 Proof using Hsrc.
   clear cs_pos.
-  intros st n out st' HI H. pose proof HI as [Hl Hp].
+  intros st n out st' HI H. pose proof HI as [[Hl Hp] Hok]. pose proof Hok as [HP Hnt].
   pose proof (buffered_length st HI) as Hbl.
   unfold read_ in H.
   destruct (Nat.leb_spec n (avail S st)) as [Hle|Hgt].
@@ -285,34 +353,39 @@ Proof using Hsrc.
     destruct (Nat.eqb_spec n (blen st)) as [Hnb|Hnb];
       destruct (Nat.eqb_spec (bpos st) 0) as [Hp0|Hp0]; cbn [andb] in H;
       inversion H; subst out st'; clear H.
-    1:{ unfold ProofsDefs.abs, ProofsDefs.Inv.
+    1:{ unfold ProofsDefs.abs, InvP, ProofsDefs.Inv.
         change (tail (mk [] 0 (bpos st) (rem st) (src st))) with (tail st).
+        change (srcok (mk [] 0 (bpos st) (rem st) (src st))) with (srcok st).
         cbn [buf blen bpos]. rewrite Hp0. simpl.
         rewrite firstn_app_l by lia. rewrite skipn_app_l by lia.
         rewrite firstn_all2, skipn_all2 by lia. simpl. repeat split; auto. }
-    all: unfold ProofsDefs.abs, ProofsDefs.Inv;
+    all: unfold ProofsDefs.abs, InvP, ProofsDefs.Inv;
       change (tail (mk (buf st) (blen st) (bpos st + n) (rem st) (src st))) with (tail st);
+      change (srcok (mk (buf st) (blen st) (bpos st + n) (rem st) (src st))) with (srcok st);
       cbn [buf blen bpos];
       rewrite firstn_app_l by lia; rewrite skipn_app_l by lia;
       rewrite skipn_skipn'; unfold avail in Hle; repeat split; auto; lia.
   - destruct (Nat.eqb_spec (blen st) 0) as [Hb0|Hb0];
       destruct (Nat.leb_spec cs n) as [Hcn|Hcn]; cbn [andb] in H.
     1:{ (* empty buffer, large read: straight from the source *)
-        apply perform_read_spec in H. destruct H as (Ho & Ht & Hb & Hbl' & Hbp).
+        apply perform_read_spec in H; [|exact Hok].
+        destruct H as (Ho & Ht & Hb & Hbl' & Hbp & [HP1 Hnt1]).
         assert (Hnil : buf st = []) by (destruct (buf st); [reflexivity|simpl in Hl; lia]).
-        unfold ProofsDefs.abs, ProofsDefs.Inv. rewrite Hb, Hbl', Hbp, Hnil, Ht.
+        unfold ProofsDefs.abs, InvP, ProofsDefs.Inv. rewrite Hb, Hbl', Hbp, Hnil, Ht.
         rewrite !skipn_nil. simpl. repeat split; auto. }
     all: destruct (Nat.leb_spec cs (n - avail S st)) as [Hcr|Hcr].
     all: try match type of H with
          | context [perform_read S rd ?x ?y] =>
            destruct (perform_read S rd x y) as [c st1] eqn:Epr;
-           apply perform_read_spec in Epr; destruct Epr as (Hc & Ht & Hb & Hbl' & Hbp)
+           apply perform_read_spec in Epr; [|exact Hok];
+           destruct Epr as (Hc & Ht & Hb & Hbl' & Hbp & [HP1 Hnt1])
          end.
     all: inversion H; subst out st'; clear H.
-    all: unfold ProofsDefs.abs, ProofsDefs.Inv.
+    all: unfold ProofsDefs.abs, InvP, ProofsDefs.Inv.
     all: try change (tail (mk [] 0 0 (rem st) (src st))) with (tail st) in *.
     all: try change (tail (mk c (length c) (Nat.min (n - avail S st) (length c)) (rem st1) (src st1)))
            with (tail st1).
+    all: unfold ProofsSync.srcok.
     all: cbn [buf blen bpos] in *.
     all: rewrite firstn_app_r by lia; rewrite skipn_app_r by lia; rewrite Hbl.
     all: try (rewrite Hb, Hbl', Hbp, Ht, Hc; rewrite skipn_nil; simpl; repeat split; auto; fail).
@@ -402,6 +475,32 @@ Qed.
 
 End SyncProofs.
 
+(* ================================================================== unconditional contract *)
+(* the statements for a source that conforms in every state ([P] trivial, [NT] off) *)
+Lemma perform_read_spec_total : forall S rd sabs, good_source S rd sabs ->
+  forall st n out st', perform_read S rd st n = (out, st') ->
+  out = firstn n (tail S sabs st) /\ tail S sabs st' = skipn n (tail S sabs st) /\
+  buf st' = buf st /\ blen st' = blen st /\ bpos st' = bpos st.
+Proof.
+  intros S rd sabs H st n out st' E.
+  assert (Hok : srcok S sabs (fun _ => True) False st) by (split; [exact I | intros []]).
+  destruct (perform_read_spec S rd sabs (fun _ => True) False (good_source_total S rd sabs H)
+              st n out st' Hok E) as (H1 & H2 & H3 & H4 & H5 & _).
+  auto.
+Qed.
+
+Lemma refine_op_basic_total : forall S rd sabs cs, good_source S rd sabs -> 0 < cs ->
+  forall st o r st', basic_op o = true -> ProofsDefs.Inv S st ->
+  run_op S rd cs true st o = (r, st') ->
+  sp_op cs o (abs S sabs st) = (r, abs S sabs st') /\ ProofsDefs.Inv S st'.
+Proof.
+  intros S rd sabs cs H Hcs st o r st' Hb HI E.
+  apply (proj2 (InvP_total S sabs st)) in HI.
+  destruct (refine_op_basic S rd sabs cs (fun _ => True) False (good_source_total S rd sabs H)
+              Hcs st o r st' Hb HI E) as [Hsp HI'].
+  split; [exact Hsp|]. apply (proj1 (InvP_total S sabs st')). exact HI'.
+Qed.
+
 (* ================================================================== the scripted source *)
 Lemma src_read_good : good_source source src_read sdata.
 Proof.
@@ -438,7 +537,7 @@ Proof.
   unfold flat. cbn [map sync_run sync_step sp_run view]. fold (flat ops).
   destruct (run_op source rd0 cs true st o) as [r st'] eqn:Erun.
   unfold rd0 in Erun.
-  destruct (refine_op_basic source src_read sdata cs src_read_good Hcs st o r st' Hbo HI Erun)
+  destruct (refine_op_basic_total source src_read sdata cs src_read_good Hcs st o r st' Hbo HI Erun)
     as [Hsp HI'].
   rewrite Hsp. cbn [map o_res]. f_equal.
   rewrite <- (sp_op_suffix cs o _ _ _ Hbo Hsp).
